@@ -861,6 +861,7 @@ impl<const M: usize> World<M> {
         if let Ok(Some(a)) = r {
             if a < blk.addr + blk.size && blk.addr < a + n {
                 self.v(12, "block_handed_out_again_after_error", format!("block_handed_out_again_after_error/{what}"), format!("{what} returned Err; the next request of {n} bytes was placed at rel {} on top of the block the caller still owns (rel {}, {} bytes)", self.rel(a), self.rel(blk.addr), blk.size));
+                self.v(1, "overlaps_live_block", format!("overlaps_live_block/after_failed_{what}"), format!("{what} returned Err, so the caller still owns its block (rel {}, {} bytes); the next request of {n} bytes was placed at rel {} on top of it", self.rel(blk.addr), blk.size, self.rel(a)));
                 self.terminal = true;
             } else {
                 self.accept_block("allocation_after_failed_realloc", a, n, 1, true, None);
